@@ -456,6 +456,43 @@ func filterJustified(v ssa.Value, queries ...string) (bool, string) {
 				}
 			}
 		}
+		// ... or that writes the filter as a loop: the kept elements are decided by a comma-ok lookup in a map
+		// parameter; judge the argument bound to that parameter
+		for _, b := range sc.Blocks {
+			for _, in := range b.Instrs {
+				lk, isLk := in.(*ssa.Lookup)
+				if !isLk || !lk.CommaOk {
+					continue
+				}
+				m := lk.X
+				if ld, isLd := m.(*ssa.UnOp); isLd {
+					if al, isAl := ld.X.(*ssa.Alloc); isAl {
+						if sts := engine.StoresTo(al); len(sts) == 1 {
+							m = sts[0].Val
+						}
+					}
+				}
+				q, isParam := m.(*ssa.Parameter)
+				if !isParam {
+					continue
+				}
+				for i, pp := range sc.Params {
+					if pp != q || i >= len(call.Call.Args) {
+						continue
+					}
+					srcs := valueSources(call.Call.Args[i])
+					all := len(srcs) > 0
+					for _, s := range srcs {
+						if !isTxMethodCall(s, queries...) {
+							all = false
+						}
+					}
+					if all {
+						return true, ""
+					}
+				}
+			}
+		}
 		return false, ""
 	}
 	if sc == nil || engine.BaseName(sc) != "Filter" {
